@@ -490,10 +490,17 @@ def xyz_reader(reader_class: ReadAndProcessOnTheFly) -> List[np.ndarray]:
     if reader_class.file_object is None:
         return trajectory
     for i, line in enumerate(iter(reader_class.file_object.readline, "")):
+        # a line without its newline is still being written (a number may
+        # be cut in the middle): return the ready frames and wait for it
+        if not line.endswith("\n"):
+            return trajectory
         spl = line.split()
         if i == 0 and spl:
             N_atoms = int(spl[0])
             block_size = N_atoms + 2  # 2 header lines
+        if block_size == 0:
+            # no atom count found where a frame should start
+            return trajectory
         # if we are not in the atom nr or header block
         if i % block_size > 1:
             # if there aren't enough values to iterate through
